@@ -144,6 +144,18 @@ Theorem C13_te_progress : forall (p : params) (sched : list nat),
 Proof. exact progress. Qed.
 Print Assumptions C13_te_progress.
 
+(* the core election alone, parametric: for ANY number n of concurrent stop callbacks on one
+   next-op (the code registers one) and every schedule the result is delivered at most once,
+   refCount_ stays within 0 .. n+1, and it has been delivered exactly once when the source's
+   completion and all callbacks have run (hand-written invariant, Proto/TypeEraseNextProofs.v
+   module Elect; model TypeEraseElect in Proto/TypeEraseNextDefs.v) *)
+Theorem C13_te_elect_once_any_number_of_callbacks : forall (n : nat) (sched : list nat),
+  let s := fst (run TypeEraseElect.step sched (TypeEraseElect.init n, [])) in
+  TypeEraseElect.deliveries s <= 1 /\ TypeEraseElect.rc s <= n + 1 /\
+  (TypeEraseElect.quiescent s = true -> TypeEraseElect.deliveries s = 1).
+Proof. exact Elect.elect_once. Qed.
+Print Assumptions C13_te_elect_once_any_number_of_callbacks.
+
 (* ------------------------------------------------------------------------------------------ *)
 (* the hypotheses are met by concrete, non-trivial runs                                       *)
 
@@ -178,4 +190,12 @@ Example ex_value_then_error :
   quiescent (fst c) = true /\ delivered (rd (fst c)) = Some RErr /\
   count is_cons_value (snd c) = 1 /\ count is_next_ctor (snd c) = 2 /\
   count is_cleanup_start (snd c) = 1 /\ count is_finished (snd c) = 1.
+Proof. vm_compute. repeat split. Qed.
+
+(* three callbacks: the source completes first (not last), the callbacks release in turn, the last
+   one delivers; a fourth callback arriving afterwards reads 0 and leaves *)
+Example ex_elect_four_callbacks :
+  let s := fst (run TypeEraseElect.step [1;2;3; 0; 1;2;3; 4] (TypeEraseElect.init 4, [])) in
+  TypeEraseElect.quiescent s = true /\ TypeEraseElect.deliveries s = 1 /\ TypeEraseElect.bailed s = 1 /\
+  TypeEraseElect.rc s = 1.
 Proof. vm_compute. repeat split. Qed.
